@@ -31,36 +31,58 @@ impl FlowControl {
         if self.has_available_space() {
             return;
         }
+        #[cfg(deltio_verif)]
+        crate::verif::sync_point("fc.wait.after_first_check");
 
         loop {
             // We didn't have space available; set up a notification
             // so we can wait for it and check again.
             let notified = self.notifier.notified();
+            #[cfg(deltio_verif)]
+            crate::verif::sync_point("fc.wait.after_notified_created");
             if self.has_available_space() {
                 return;
             }
+            #[cfg(deltio_verif)]
+            crate::verif::sync_point("fc.wait.before_await");
             notified.await;
+            #[cfg(deltio_verif)]
+            crate::verif::sync_point("fc.wait.after_await");
         }
     }
 
     /// Increments the outstanding values.
     pub fn inc(&self, outstanding_bytes_delta: u64, outstanding_messages_delta: u64) {
         // We only need Acq/Rel ordering because our changes are commutative.
+        #[cfg(deltio_verif)]
+        crate::verif::sync_point("fc.inc.start");
         self.outstanding_bytes
             .fetch_add(outstanding_bytes_delta, Ordering::AcqRel);
+        #[cfg(deltio_verif)]
+        crate::verif::sync_point("fc.inc.between_adds");
         self.outstanding_messages
             .fetch_add(outstanding_messages_delta, Ordering::AcqRel);
+        #[cfg(deltio_verif)]
+        crate::verif::sync_point("fc.inc.before_notify");
         self.notifier.notify_waiters();
     }
 
     /// Increments the outstanding values.
     pub fn dec(&self, outstanding_bytes_delta: u64, outstanding_messages_delta: u64) {
         // We only need Acq/Rel ordering because our changes are commutative.
+        #[cfg(deltio_verif)]
+        crate::verif::sync_point("fc.dec.start");
         self.outstanding_bytes
             .fetch_sub(outstanding_bytes_delta, Ordering::AcqRel);
+        #[cfg(deltio_verif)]
+        crate::verif::sync_point("fc.dec.between_subs");
         self.outstanding_messages
             .fetch_sub(outstanding_messages_delta, Ordering::AcqRel);
+        #[cfg(deltio_verif)]
+        crate::verif::sync_point("fc.dec.before_notify");
         self.notifier.notify_waiters();
+        #[cfg(deltio_verif)]
+        crate::verif::sync_point("fc.dec.after_notify");
     }
 
     /// Checks whether there is available space.
@@ -72,6 +94,8 @@ impl FlowControl {
         if available_messages >= self.max_outstanding_messages {
             return false;
         }
+        #[cfg(deltio_verif)]
+        crate::verif::sync_point("fc.has_space.between_loads");
 
         let available_bytes = self.outstanding_bytes.load(Ordering::Acquire);
         if available_bytes >= self.max_outstanding_bytes {
